@@ -124,9 +124,8 @@ theorem C01_no_hidden_state (w : World R) (hnr : w.NoRandom) (pt : P3 R) (depth 
             | ok o =>
               cases o with
               | none => exact ⟨.ok b, by funext g; simp [liftE_ok]⟩
-              | some t =>
-                obtain ⟨a, c, r⟩ := t
-                obtain ⟨res, hres⟩ := paintBlocks_stateIndep (G := G) f.tag f.models (hnr f hf) w.ctx ⟨pt, w.ctx.coord.toNatural pt, depth, w.ctx.gravity⟩ a c r ps b
+              | some hit =>
+                obtain ⟨res, hres⟩ := paintBlocks_stateIndep (G := G) hit (Feature.cover_noRandom f (hnr f hf) _ _ hit hc) w.ctx ⟨pt, w.ctx.coord.toNatural pt, depth, w.ctx.gravity⟩ ps b
                 exact ⟨res, by funext g; simp [hres]⟩
           obtain ⟨res, hres⟩ := hfs
           cases res with
